@@ -125,6 +125,113 @@ theorem protoGo_append_left : ∀ (xs ys : List Rec) (c : Option Nat), protoGo c
       simp only [List.cons_append, protoGo, Bool.and_eq_true] at h ⊢
       exact ⟨h.1, protoGo_append_left xs ys _ h.2⟩
 
+/-- **replay is positional**: a complete block `BeginTx x, ops…, CommitTx x` anywhere in a record list that
+    replays is handed out with exactly `ops` — whatever precedes it (unfinished fragments under the same txid or
+    any other) and whatever follows it -/
+theorem commitGo_block (x : Nat) (ops : List Rec) (hops : ∀ r ∈ ops, Rec.isOp r = true) (post : List Rec) :
+    ∀ (pre : List Rec) (c : Option Nat) (p : List Rec) (o txs : List Tx),
+    commitGo c p o (pre ++ (.beginTx x :: (ops ++ [.commitTx x])) ++ post) = .ok txs →
+    ∃ a b, commitGo c p o pre = .ok a ∧ txs = a ++ ⟨x, ops⟩ :: b
+  | [], c, p, o, txs, h => by
+    simp only [List.nil_append, List.cons_append, List.append_assoc, commitGo] at h
+    rw [commitGo_ops x ops [] o (.commitTx x :: post) hops] at h
+    simp only [List.nil_append, commitGo, ne_eq, not_true_eq_false, if_false] at h
+    obtain ⟨b, hb⟩ := commitGo_out_prefix post none [] (o ++ [⟨x, ops⟩]) txs h
+    exact ⟨o, b, rfl, by rw [← hb]; simp⟩
+  | r :: pre, c, p, o, txs, h => by
+    cases r with
+    | beginTx t =>
+      simp only [List.cons_append, commitGo] at h ⊢
+      exact commitGo_block x ops hops post pre _ _ _ txs h
+    | commitTx t =>
+      simp only [List.cons_append, commitGo] at h ⊢
+      split at h
+      · cases h
+      · rename_i hc
+        rw [if_neg hc]
+        exact commitGo_block x ops hops post pre _ _ _ txs h
+    | _ =>
+      simp only [List.cons_append, commitGo] at h ⊢
+      split at h
+      · cases h
+      · rename_i hc
+        rw [if_neg hc]
+        exact commitGo_block x ops hops post pre _ _ _ txs h
+
+/-- records after the last `CommitTx` that contain no `CommitTx` commit nothing -/
+theorem commitGo_no_commit : ∀ (ys : List Rec) (c : Option Nat) (p : List Rec) (o t : List Tx),
+    (∀ r ∈ ys, ∀ z, r ≠ .commitTx z) → commitGo c p o ys = .ok t → t = o
+  | [], _, _, o, t, _, h => by simp only [commitGo] at h; injection h with h; exact h.symm
+  | r :: ys, c, p, o, t, hn, h => by
+    have hn' : ∀ q ∈ ys, ∀ z, q ≠ .commitTx z := fun q hq => hn q (by simp [hq])
+    cases r with
+    | beginTx x => simp only [commitGo] at h; exact commitGo_no_commit ys _ _ o t hn' h
+    | commitTx x => exact absurd rfl (hn (.commitTx x) (by simp) x)
+    | _ =>
+      simp only [commitGo] at h
+      split at h
+      · cases h
+      · exact commitGo_no_commit ys _ _ o t hn' h
+
+theorem commitGo_append_eq : ∀ (xs ys : List Rec) (c : Option Nat) (p : List Rec) (o a t : List Tx),
+    commitGo c p o xs = .ok a → commitGo c p o (xs ++ ys) = .ok t → (∀ r ∈ ys, ∀ z, r ≠ .commitTx z) → t = a
+  | [], ys, c, p, o, a, t, h, h', hn => by
+    simp only [commitGo] at h; injection h with h; subst h
+    exact commitGo_no_commit ys c p _ t hn (by simpa using h')
+  | r :: xs, ys, c, p, o, a, t, h, h', hn => by
+    cases r with
+    | beginTx x =>
+      simp only [commitGo] at h; simp only [List.cons_append, commitGo] at h'
+      exact commitGo_append_eq xs ys _ _ _ a t h h' hn
+    | commitTx x =>
+      simp only [commitGo] at h; simp only [List.cons_append, commitGo] at h'
+      split at h
+      · cases h
+      · rename_i hc
+        rw [if_neg hc] at h'
+        exact commitGo_append_eq xs ys _ _ _ a t h h' hn
+    | _ =>
+      simp only [commitGo] at h; simp only [List.cons_append, commitGo] at h'
+      split at h
+      · cases h
+      · rename_i hc
+        rw [if_neg hc] at h'
+        exact commitGo_append_eq xs ys _ _ _ a t h h' hn
+
+/-- an unfinished transaction appended to a log that replays changes nothing -/
+theorem commitGo_fragment (x : Nat) (ops₀ : List Rec) (h0 : ∀ r ∈ ops₀, Rec.isOp r = true) :
+    ∀ (xs : List Rec) (c : Option Nat) (p : List Rec) (o a : List Tx), commitGo c p o xs = .ok a →
+    commitGo c p o (xs ++ (.beginTx x :: ops₀)) = .ok a
+  | [], c, p, o, a, h => by
+    simp only [commitGo] at h; injection h with h; subst h
+    simp only [List.nil_append, commitGo]
+    have := commitGo_ops x ops₀ [] o [] h0
+    simp only [List.append_nil] at this
+    rw [this]; rfl
+  | r :: xs, c, p, o, a, h => by
+    cases r with
+    | beginTx t =>
+      simp only [commitGo] at h; simp only [List.cons_append, commitGo]
+      exact commitGo_fragment x ops₀ h0 xs _ _ _ a h
+    | commitTx t =>
+      simp only [commitGo] at h; simp only [List.cons_append, commitGo]
+      split at h
+      · cases h
+      · rename_i hc
+        rw [if_neg hc]
+        exact commitGo_fragment x ops₀ h0 xs _ _ _ a h
+    | _ =>
+      simp only [commitGo] at h; simp only [List.cons_append, commitGo]
+      split at h
+      · cases h
+      · rename_i hc
+        rw [if_neg hc]
+        exact commitGo_fragment x ops₀ h0 xs _ _ _ a h
+
+theorem committedCfg_eq {cfg : Cfg} (h : cfg.beginResetsPending = true) (rs : List Rec) :
+    committedCfg cfg rs = committed rs := by
+  simp [committedCfg, h]
+
 theorem committed_of_proto (rs : List Rec) (h : ProtoOk rs = true) : committed rs = .ok (specTxs rs) :=
   commitGo_of_proto rs none [] [] h
 
@@ -140,6 +247,7 @@ structure Fixed (cfg : Cfg) : Prop where
   undec : cfg.undecodableIsEof = true
   trunc : cfg.truncatesBeforeAppend = true
   rej : cfg.appendRejectsOversize = true
+  resets : cfg.beginResetsPending = true
   cap : cfg.maxLen < two32
   codec : Coherent cfg.codec
 
